@@ -13,6 +13,9 @@ well-formed script table `prog`.
 -/
 namespace C04
 open QM.Sys
+set_option linter.unusedSectionVars false
+section
+variable [Cfg]
 
 /-- The state after the choices `cs`, from the start-up state of `Repl::evaluate`. -/
 abbrev reach (n : Nat) (prog : Prog) (req : Nat) (cs : List Choice) : Sys := run (Sys.init n prog req) cs
@@ -217,6 +220,7 @@ theorem wakePending_not_idle {s : Sys} (h : WInv s) {p : Pid} (hp : WakePending 
     | spawn _ _ _ _ => simp [mentionsE] at hm
     | deliver _ _ => simp [mentionsE] at hm
     | resultResp _ _ => simp [mentionsE] at hm
+    | exited _ => simp [mentionsE] at hm
 
 /-- … hence **the system never becomes idle while a blocked process has a ready source**: when all
 queues of all workers are empty, no process parked in a select has a ready source in its local
@@ -342,6 +346,10 @@ theorem notify_spawn_requeues_iff_parked (s : Sys) (i : Wid) (caller newPid : Pi
 
 /-! ### examples: the hypotheses are satisfiable by non-trivial reachable states -/
 
+end
+
+/-! ### concrete witnesses (configuration: the default, the code at HEAD) -/
+
 /-- main spawns a child that sends it one message -/
 def exProg : Prog := [[.spawn 1 [0], .select [.recv .any]], [.send 1 1 0]]
 def exCs : List Choice := [.worker 0 100 5 [] [], .env [100, 100], .worker 1 100 5 [] [], .env [100, 100]]
@@ -373,6 +381,16 @@ example :
     Cmd.deliver 0 { src := 1, tag := 1, seq := 0 } ∈ s.cmdQ 0 := by decide
 
 /-! ### the theorems depend on the repairs (witnesses of the earlier rules) -/
+
+/-- variant `exitReports` (notes/C14-fixes/01): the worker of the child reports its termination
+(`Evt.exited 1`) in the worker step in which it finishes, after what that step had already emitted;
+without the variant nothing is reported.  Every theorem of this file (outside this section of
+concrete witnesses) is stated for an arbitrary configuration `[Cfg]`, i.e. holds for both. -/
+example :
+    (@reach ⟨true⟩ 2 exProg 1 [.worker 0 100 5 [] [], .env [100, 100], .worker 1 100 5 [] [], .worker 1 100 5 [] []]).evtQ 1 =
+      [.deliver 0 { src := 1, tag := 1, seq := 0 }, .exited 1] ∧
+    (@reach ⟨false⟩ 2 exProg 1 [.worker 0 100 5 [] [], .env [100, 100], .worker 1 100 5 [] [], .worker 1 100 5 [] []]).evtQ 1 =
+      [.deliver 0 { src := 1, tag := 1, seq := 0 }] := by decide
 
 /-- main: `c1 = @{ ! [50] }, c2 = @{ [2,0] me }, ! [c1, #recv], c3 = @{}, ! [c3]` -/
 def staleProg : Prog :=
@@ -447,6 +465,9 @@ theorem stale_failure_suppresses_wakeup :
     ∧ ((good.wk 0).procs 0).map (·.result) = some (some (.ok [-1, 0, -1, 2, 0, -2, -1, -2, -2])) := by
   decide +kernel
 
+section
+variable [Cfg]
+
 /-! ### await answers end to end -/
 
 /-- The faithful-answer invariant (`TInv`) after every choice sequence. -/
@@ -513,5 +534,7 @@ theorem idle_unfinished_parked (n : Nat) (prog : Prog) (req : Nat) (hn : 0 < n) 
     · rw [quiescent_no_spawner_waiting n prog req hn hwf cs hidle w hw] at h; cases h
     · exact h
   exact ⟨hsel, quiescent_no_blocked_ready n prog req hn hwf cs hidle w p x hsel hx⟩
+
+end
 
 end C04
